@@ -61,6 +61,10 @@ fn main() {
         let root = exported(&grammar).into_iter().next().expect("an exported rule");
         let root = if ["type", "fn", "loop", "match", "mod"].contains(&root.as_str()) { format!("r#{root}") } else { root };
         writeln!(probe, "pub fn parse_debug(s: &str) -> String {{ use peginator::PegParser; format!(\"{{:?}}\", {root}::parse(s)) }}").unwrap();
+        // items the grammar refers to by relative path, present in every module that holds a parser of this grammar
+        if let Ok(h) = fs::read_to_string(dir.join(format!("{name}.helpers.rs"))) {
+            probe.push_str(&h);
+        }
         fs::write(out.join(format!("{name}_probe.rs")), probe).unwrap();
         let hashes = "#".repeat(4);
         writeln!(mods, "#[allow(unused, non_camel_case_types, clippy::all)]\npub mod c_{name} {{ include!(concat!(env!(\"OUT_DIR\"), \"/{name}_lib.rs\")); include!(concat!(env!(\"OUT_DIR\"), \"/{name}_probe.rs\")); }}").unwrap();
